@@ -92,7 +92,22 @@ func (c *VCtx) call(fr *Frame, st *State, cc *ssa.CallCommon, instr *ssa.Call, m
 			c.safety(fr, st, "nilderef", Not(Eq(rt0, Null)), cc.Pos())
 			c.bumpCalls(st, rt0)
 		}
-		return c.externalCall(fr, st, cc, invokeKey(cc), append([]Val{recv}, args...), rt)
+		res := c.externalCall(fr, st, cc, invokeKey(cc), append([]Val{recv}, args...), rt)
+		if fr.contract != nil {
+			// ghost statements right after a call through an interface: "invoke <Method>", ret = its result
+			extra := map[string]Val{}
+			if res != nil {
+				if tup, isTup := res.(Tuple); isTup {
+					for i, r := range tup {
+						extra[fmt.Sprintf("ret%d", i)] = r
+					}
+				} else {
+					extra["ret"] = res
+				}
+			}
+			c.runGhost(fr, st, fr.contract, "invoke "+cc.Method.Name(), extra)
+		}
+		return res
 	}
 	var fv *FnVal
 	if callee := cc.StaticCallee(); callee != nil {
@@ -157,6 +172,31 @@ func (c *VCtx) callFn(fr *Frame, st *State, cc *ssa.CallCommon, fv *FnVal, args 
 				c.prove(name, desc, st.pc, Or(alts...), nil)
 			}
 			c.obls[len(c.obls)-1].Props = c.ownProps()
+			// the helper assumes the monitor invariants on entry: they must hold at the call
+			// (except those it declares it can start without: opt breaks = I1 I2)
+			breaks := " " + ct.Opts["breaks"] + " "
+			for _, h := range st.held {
+				if ct.Inline {
+					break // the body is executed in the caller's state: nothing is assumed on its behalf
+				}
+				for _, m := range h.specs {
+					// only the receiver's own monitor (and monitors embedded in it): that is what the helper assumes
+					c.curState = st
+					cond := c.monitorIsReceivers(m, recv, callee)
+					if cond == nil {
+						continue
+					}
+					sc := c.objScope(m, st, m.entry)
+					for i, inv := range m.spec.Invs {
+						if strings.Contains(breaks, " "+inv.Label+" ") {
+							continue
+						}
+						g := Implies(cond, c.translateBool(sc, inv.E))
+						c.proveOnly(inv.Props, clauseProps(inv, m.spec.Props), fmt.Sprintf("call.inv.%s.%s.%s", bareName(FuncKey(callee)), m.spec.Type, clauseLabel(inv, i)),
+							fmt.Sprintf("object invariant of %s holds when the helper %s is called (%s): %s", m.spec.Type, FuncKey(callee), c.eng.pos(cc.Pos()), inv.Src), st.pc, g)
+					}
+				}
+			}
 		}
 	}
 	if ct != nil && !ct.Inline && callee != c.top {
@@ -503,11 +543,24 @@ func (c *VCtx) applyContract(fr *Frame, st *State, cc *ssa.CallCommon, ct *FuncC
 	if ct.Opts["holds"] != "" && c.top != nil {
 		// a ...Locked helper re-establishes the invariants of the monitor it works in before it returns
 		// (proved at its own exit), and the global invariants with them
+		var recvT *Term
+		if len(args) > 0 {
+			if rt, ok := args[0].(*Term); ok {
+				recvT = rt
+			}
+		}
 		for _, h := range st.held {
 			for _, m := range h.specs {
+				// only the receiver's own monitor and the monitors embedded in it: those are the invariants the
+				// helper proves at its exit (the condition says which held monitor that is)
+				c.curState = st
+				cond := c.monitorIsReceivers(m, recvT, callee)
+				if cond == nil {
+					continue
+				}
 				sc := c.objScope(m, st, st)
 				for _, inv := range m.spec.Invs {
-					c.factG(st.pc, c.translateBool(sc, inv.E))
+					c.factG(And(st.pc, cond), c.translateBool(sc, inv.E))
 				}
 			}
 		}
@@ -1079,6 +1132,10 @@ func (c *VCtx) isGhostFieldHeap(h string) bool {
 func (c *VCtx) afterOpaqueCall(st, pre *State, worksUnderCallerLock bool) {
 	// fields declared immutable keep their value on every object that existed before the call
 	allocPre := c.allocHeap(pre)
+	if allocPost := c.allocHeap(st); allocPost.S != allocPre.S {
+		// objects are never deallocated
+		c.linkFact(T(SBool, fmt.Sprintf("(forall ((r Ref)) (! (=> (select %s r) (select %s r)) :pattern ((select %s r))))", allocPre.S, allocPost.S, allocPre.S)))
+	}
 	for _, hn := range c.immutableHeaps() {
 		srt, ok := c.heapSorts[hn]
 		if !ok {
@@ -1138,4 +1195,76 @@ func (c *VCtx) immutableHeaps() []string {
 		}
 	}
 	return out
+}
+
+// monitorOfReceiver: is m the monitor of the helper's receiver object, or of an object embedded in it?
+func (c *VCtx) monitorOfReceiver(m *monitorRef, recvS string) bool {
+	if recvS == "" {
+		return false
+	}
+	if m.obj.S == recvS {
+		return true
+	}
+	if info := c.embedded[m.obj.S]; info != nil {
+		for _, lk := range info.chain {
+			if lk.term.S == recvS {
+				return true
+			}
+		}
+	}
+	return false
+}
+
+// monitorIsReceivers: the condition under which held monitor m is one of the monitors a ...Locked helper relies
+// on: the helper's lock (receiver + "opt holds" path) is the lock m belongs to, and m's type lies on that path
+// (the receiver itself or an object the path goes through). nil if it cannot be.
+func (c *VCtx) monitorIsReceivers(m *monitorRef, recv *Term, callee *ssa.Function) *Term {
+	if recv == nil || callee.Signature.Recv() == nil {
+		return nil
+	}
+	ct := c.eng.ContractOf(callee)
+	if ct == nil || ct.Opts["holds"] == "" {
+		return nil
+	}
+	// types on the path
+	onPath := map[string]bool{}
+	curT := deref(callee.Params[0].Type())
+	onPath[typeKey(curT)] = true
+	for _, part := range strings.Split(ct.Opts["holds"], ".") {
+		stt, ok := curT.Underlying().(*types.Struct)
+		if !ok {
+			break
+		}
+		for i := 0; i < stt.NumFields(); i++ {
+			if stt.Field(i).Name() == part {
+				ft := stt.Field(i).Type()
+				if pt, isPtr := ft.Underlying().(*types.Pointer); isPtr {
+					curT = pt.Elem()
+				} else {
+					curT = ft
+				}
+				onPath[typeKey(curT)] = true
+			}
+		}
+	}
+	if !onPath[typeKey(m.objT)] {
+		return nil
+	}
+	// which held lock is it?
+	st := c.curState
+	if st == nil {
+		return nil
+	}
+	lock := c.lockByPath(st, recv, deref(callee.Params[0].Type()), ct.Opts["holds"])
+	for _, h := range st.held {
+		for _, hm := range h.specs {
+			if hm == m {
+				if h.obj.S == lock.S {
+					return True
+				}
+				return Eq(h.obj, lock)
+			}
+		}
+	}
+	return nil
 }
